@@ -42,6 +42,7 @@ MIN_REACH = {
     "partial_reaps_racing_with_the_last_grower": {"quick": 10, "thorough": 100},
     "cases_reaped_through_a_handle_older_than_the_sow": {"quick": 8, "thorough": 80},
     "crops_whose_batch_files_are_newer_than_the_results": {"quick": 10, "thorough": 100},
+    "crops_whose_path_contains_pattern_characters": {"quick": 8, "thorough": 80},
 }
 TIME_BUDGET = {"quick": 400, "thorough": 3400}
 CASE_TIMEOUT = {"quick": 300, "thorough": 900}
@@ -136,7 +137,12 @@ def run_case(ctx, case):
     kind = w["kind"]
     form = case["form"]
     constants = dict(w["constants"])
-    tmp = ctx.mkdtemp("crop")
+    root = tmp = ctx.mkdtemp("crop")
+    if case["idx"] % 5 == 2:
+        # a directory whose name contains characters that are special in file-name patterns
+        tmp = os.path.join(root, "scan [2] a*b")
+        os.makedirs(tmp)
+        ctx.count("crops_whose_path_contains_pattern_characters")
     name = "c9"
     sig = {"api": "reap(allow_incomplete)", "form": form, "kind": kind.split(":")[0], "shuffle": bool(case["shuffle"]),
            "batching": "size" if case.get("batchsize") else "count"}
@@ -169,7 +175,7 @@ def run_case(ctx, case):
             ctx.count("locations_used_before_by_another_crop")
         except Exception as e:
             ctx.violation(case, "prelude crop at the same location raised %r" % (e,), dict(sig, step="prelude", **exc_sig(e)))
-            ctx.rmtree(tmp)
+            ctx.rmtree(root)
             return
     early = None
     if form not in ("runner_ds", "harvester_ds") and case["idx"] % 4 == 2:
@@ -191,7 +197,7 @@ def run_case(ctx, case):
             crop.grow_missing()
     except Exception as e:
         ctx.violation(case, "sow/grow raised %r" % (e,), dict(sig, step="sow/grow", **exc_sig(e)))
-        ctx.rmtree(tmp)
+        ctx.rmtree(root)
         return
     loc = cropkit.crop_dir(tmp, name)
     files = cropkit.batch_files(tmp, name)
@@ -205,7 +211,7 @@ def run_case(ctx, case):
     rfiles = cropkit.result_files(tmp, name)
     if sorted(rfiles) != list(range(1, B + 1)):
         ctx.violation(case, "after grow_missing results %s for %d batches" % (sorted(rfiles), B), dict(sig, step="grow"))
-        ctx.rmtree(tmp)
+        ctx.rmtree(root)
         return
     for i, p in rfiles.items():
         shutil.move(p, os.path.join(stash, os.path.basename(p)))
@@ -474,4 +480,4 @@ def run_case(ctx, case):
         except Exception as e:
             ctx.violation(case, "grow_missing + full reap after partial reaps raised %r" % (e,),
                           dict(sig, oracle="full-after-partial", **exc_sig(e)))
-    ctx.rmtree(tmp)
+    ctx.rmtree(root)
